@@ -2,7 +2,10 @@
 
 package fasta
 
-import "bytes"
+import (
+	"bytes"
+	"fmt"
+)
 
 // Property-level theorems for /verif/govc, written as client programs of the
 // contracted functions. Never called; verified modularly (each call is
@@ -62,4 +65,47 @@ func thmRoundTrip2(f1, f2 *Fasta, k int) {
 	//@ assert forall j int :: 0 <= j && j < len(f2.Name) ==> g2.Name[j] == f2.Name[j]
 	//@ assert len(g2.Sequence) == len(f2.Sequence)
 	_, _, _, _, _ = g1, err1, g2, err2, k
+}
+
+//@ theorem C06.crlf
+//@   props C06
+//@   requires forall j int :: 0 <= j && j < len(name) ==> !nl(name[j])
+//@   requires forall j int :: 0 <= j && j < len(l1) ==> !nl(l1[j]) && l1[j] != '>'
+//@   requires forall j int :: 0 <= j && j < len(l2) ==> !nl(l2[j]) && l2[j] != '>'
+// A record laid out with CRLF line terminators (name line, two sequence
+// lines) decodes to the name and the concatenation of the sequence lines:
+// every CR and LF is a line break to the state machine and none reaches the
+// record. k is an arbitrary position (as in C01.roundtrip).
+func thmCRLF(name, l1, l2 string, k int) {
+	buf := &bytes.Buffer{}
+	fmt.Fprintf(buf, ">%s\r\n%s\r\n%s\r\n", name, l1, l2)
+	a := len(name)
+	n1 := len(l1)
+	n2 := len(l2)
+	g, err := newReader(buf).read()
+	//@ assert len(buf.out) == 7 + a + n1 + n2
+	//@ assert buf.out[1 + a] == 13 && buf.out[2 + a] == 10 && buf.out[3 + a + n1] == 13 && buf.out[4 + a + n1] == 10
+	//@ assert err == nil && g != nil
+	//@ assert fnl(arr(buf.out), 1, len(buf.out)) == 1 + a
+	//@ assert len(g.Name) == a && forall j int :: 0 <= j && j < a ==> g.Name[j] == name[j]
+	//@ assert ftm(arr(buf.out), 2 + a, len(buf.out)) == len(buf.out)
+	//@ assert cnt(arr(buf.out), 1 + a, 3 + a) == 0
+	//@ assert cnt(arr(buf.out), 1 + a, 3 + a + n1) == n1
+	//@ assert cnt(arr(buf.out), 1 + a, 5 + a + n1) == n1
+	//@ assert cnt(arr(buf.out), 1 + a, 5 + a + n1 + n2) == n1 + n2
+	//@ assert cnt(arr(buf.out), 1 + a, 7 + a + n1 + n2) == n1 + n2
+	//@ assert len(g.Sequence) == n1 + n2
+	if 0 <= k && k < n1 {
+		//@ assert buf.out[3 + a + k] == l1[k]
+		//@ assert cnt(arr(buf.out), 1 + a, 3 + a + k) == k
+		//@ assert g.Sequence[k] == l1[k]
+		_ = k
+	}
+	if 0 <= k && k < n2 {
+		//@ assert buf.out[5 + a + n1 + k] == l2[k]
+		//@ assert cnt(arr(buf.out), 1 + a, 5 + a + n1 + k) == n1 + k
+		//@ assert g.Sequence[n1 + k] == l2[k]
+		_ = k
+	}
+	_, _, _, _, _ = g, err, a, n1, n2
 }
